@@ -179,7 +179,8 @@ EditWellFormed(pool, last, st) ==
 \* copy anew from the column as it is then, so no later call can read an old one.  Nothing else may be left behind.
 CopyNames(pool, st, j) == {"@" \o ToString(i) : i \in {i \in 1..Len(st.params) : st.params[i].kind = "table" /\ st.params[i].obj = j /\ pool[j].form = "renamed"}}
 WithCopies(t, names)   == [t EXCEPT !.others = [nm \in names |-> Payload(t)] @@ t.others]
-TableKept(pool, st, j, after) == after = pool[j] \/ after = WithCopies(pool[j], CopyNames(pool, st, j))
+\* (the deviation is no longer admitted: repaired in /repo 2b8c4b2 - _item reads the renamed column into a copy; WithCopies is kept to name what used to be left behind)
+TableKept(pool, st, j, after) == after = pool[j]
 \* Named deviation DefaultsGainCacheKeys: the caller's `defaults` dict comes back with the value column and "expiry" added
 \* (both None: what a row without cached value / expiry is given anyway)
 StaticsKept(s, after) == /\ after.on = s.on /\ after.renames = s.renames
